@@ -519,6 +519,11 @@ def _r1(ctx):
         if a[0] == "comp" and len(a[3]) == 1:
             tg_, it_, ifs_ = a[3][0]
             return [(b_, f_ or bool(ifs_)) for z in seqs_of(it_) for b_, f_ in sources(z, depth)]
+        if a[0] == "acc" and depth < 3:
+            # a local list filled by one append per iteration of a loop of this function: a view of what that loop walks
+            lb_ = loop_built_seq(fl, a[1])
+            if lb_ is not None:
+                return [x for z in seqs_of(lb_[0].iter) for x in sources(z, depth + 1)]
         sm = summarise(a) if depth < 3 else None
         if sm is not None and sm[0] == "loop":
             return [x for z in seqs_of(sm[2]) for x in sources(z, depth + 1)]
@@ -581,12 +586,18 @@ def _r1(ctx):
             return helped(z[2]) or helped(z[3])
         if z[0] == "call" and z[1] == ("global", "zip"):
             return any(helped(a) for a in z[2])
+        if z[0] == "acc":
+            return loop_built_seq(fl, z[1]) is not None
         return summarise(z) is not None
 
     def at(z, l_, depth=0):
         z = simp(z)
         if z[0] in ("phi", "ifexp"):
             return ("phi", z[1], at(z[2], l_, depth), at(z[3], l_, depth))
+        if z[0] == "acc" and depth < 4:
+            lb_ = loop_built_seq(fl, z[1])
+            if lb_ is not None:
+                return resolve(subst_loop(lb_[1], lb_[0].id, l_), depth + 1)
         sm = summarise(z) if depth < 4 else None
         if sm is not None and sm[0] == "loop":
             return resolve(subst_loop(sm[3], sm[1], l_), depth + 1)
